@@ -635,11 +635,11 @@ func Reaches(from ssa.Instruction, isB func(ssa.Instruction) bool) bool {
 		}
 		seen[x] = true
 		for _, in := range x.Instrs {
-			if x == b && in == from {
-				break
-			}
 			if isB(in) {
 				return true
+			}
+			if x == b && in == from {
+				break
 			}
 		}
 		work = append(work, x.Succs...)
